@@ -7,6 +7,22 @@ reads the buffer holding the token moves the token.  No data, no indices: only
 which buffer is read/written, which layout name the data is in, and which
 handler is current.  Small integer loop counts (route lengths) are enumerated
 concretely and shown 2-periodic.  See DESIGN.md 4.3.
+
+AUDIT (soundness of what callers turn into VIOLATED).  The engine records *problems* on the path token; the kinds in
+UNDECIDED_KINDS mean `this path was not followed completely`, every other kind is a diagnosis:
+  clobber / stale-read / token location / write set   true when every store and call on the path was read with the complete
+      set of arrays its value was computed from (see `event`); every construct that is not modelled records an
+      UNDECIDED_KINDS problem instead of being read as `no effect` / `writes nothing` / `pure`: stores of a value that was not
+      followed, stores THROUGH a value that was not followed but was computed from the arrays (`<mayalias>` names), views that
+      may be a copy (MaybeView), may-writes of one of several buffers, collectives whose buffers were not identified, calls
+      that are handed an array and are not analysed, array methods outside the tables, numpy out=/where=, statement kinds that
+      are not read (match, async), handlers of try blocks that use the arrays, loops over layout steps whose iterations are
+      not enumerated, star-expanded arguments that are not known, joined paths after a state explosion.
+  layout-bookkeeping / extent   true when the layouts compared are identified symbols (name / step); anything else is
+      `layout-bookkeeping-undecided` / `extent-undecided`.
+  Assumptions that are NOT checked (stated to the caller): an unknown iterable is non-empty and its body is stable after two
+      passes; exceptions are not part of the normal path; reshape / ravel of the flat buffers are views (the code asserts
+      `.base is`); distinct symbols denote distinct layouts; a lookup `self.X[k]` / `self.X.get(k)` finds its key.
 """
 from __future__ import annotations
 
@@ -41,12 +57,31 @@ class Fresh:
         return "Fresh(" + ",".join(sorted(self.derived)) + ")"
 
 
+@dataclass(frozen=True, repr=False)
+class MaybeView(Fresh):
+    """result of an operation that returns its argument itself when no conversion is needed (np.ascontiguousarray, np.require,
+    astype(copy=False), np.array(copy=False)): reading it reads `derived`; a store THROUGH it may or may not write those arrays"""
+
+    def __repr__(self):
+        return "MaybeView(" + ",".join(sorted(self.derived)) + ")"
+
+
 class _Opaque:
     def __repr__(self):
         return "?"
 
 
 OPAQUE = _Opaque()
+
+
+class Closure:
+    """a nested function / lambda bound to a local name: its body reads the locals of the defining call"""
+
+    def __init__(self, node):
+        self.node = node
+
+    def __repr__(self):
+        return f"closure@{getattr(self.node, 'lineno', 0)}:{getattr(self.node, 'col_offset', 0)}"
 
 
 class _NotNone:
@@ -115,6 +150,33 @@ COPY_METHODS = {"flatten", "copy", "astype", "conj", "conjugate"}
 NP_VIEW_FUNCS = {"split", "transpose", "reshape", "real", "imag", "atleast_1d", "atleast_2d", "swapaxes",
                  "moveaxis", "squeeze", "array_split", "asarray", "ravel"}
 NP_COPY_FUNCS = {"array", "copy", "concatenate", "stack", "ascontiguousarray", "abs", "sum", "conj"}
+# AUDIT (tables): a name that is in none of the tables is UNKNOWN, never `pure`/`view`/`no effect`:
+#   numpy function: a new array computed from every array argument (positional and keyword) - this is what every numpy function that
+#   has no out= argument and is not one of NP_WRITES_FIRST does; out= is a store into that array; NP_WRITES_FIRST store into their
+#   first argument; NP_MAYBE_VIEW may hand back their argument itself
+#   method of an array: VIEW_METHODS / COPY_METHODS / ARRAY_PURE_METHODS as named; ARRAY_MUTATING_METHODS and every other name: the
+#   path is undecided (`call-undecided`)
+NP_ALLOC_FUNCS = {"empty", "zeros", "ones", "full", "ndarray", "empty_like", "zeros_like", "ones_like", "full_like"}
+NP_WRITES_FIRST = {"copyto", "put", "place", "putmask", "fill_diagonal", "put_along_axis"}
+NP_MAYBE_VIEW = {"ascontiguousarray", "asfortranarray", "require", "asanyarray", "asarray_chkfinite"}
+ARRAY_PURE_METHODS = {"sum", "min", "max", "mean", "any", "all", "prod", "std", "var", "argmax", "argmin", "tolist", "tobytes", "item",
+                      "dot", "nonzero", "cumsum", "round", "clip", "take", "repeat", "trace", "tostring", "dump",
+                      "dumps", "searchsorted", "argsort", "compress", "choose", "ptp", "cumprod"}
+ARRAY_MUTATING_METHODS = {"fill", "sort", "partition", "resize", "put", "itemset", "setfield", "byteswap", "setflags"}
+META_ATTRS = {"shape", "size", "dtype", "ndim", "itemsize", "nbytes", "strides", "flags"}
+COLLECTIVES = ("Alltoall", "Alltoallv", "Allgather", "Allgatherv", "Gather", "Gatherv", "Scatter", "Scatterv", "Bcast",
+               "Reduce", "Allreduce", "Sendrecv")
+LIST_MUTATORS = {"append", "extend", "insert", "pop", "remove", "clear", "sort", "reverse"}
+# builtins that only look at their arguments (never store into an array they are given)
+INSPECTING_BUILTINS = {"len", "zip", "enumerate", "list", "tuple", "range", "slice", "reversed", "iter", "next", "sorted",
+                       "isinstance", "id", "min", "max", "sum", "any", "all", "int", "float", "bool", "str", "type", "print", "repr",
+                       "abs", "divmod", "map", "filter", "hasattr", "getattr", "memoryview", "complex", "round", "format"}
+ITERATOR_MAKERS = {"zip", "iter", "enumerate", "reversed", "map", "filter"}
+# kinds of recorded problems that mean `this path was not followed completely` (callers must not report a violation from the
+# token on such a path); every other kind is a diagnosis
+UNDECIDED_KINDS = {"store-undecided", "call-undecided", "array-argument-undecided", "loop-undecided", "contract-args-undecided",
+                   "layout-bookkeeping-undecided", "extent-undecided", "stmt-undecided", "merge-undecided", "try-undecided"}
+MAX_STATES = 400
 
 
 @dataclass
@@ -165,10 +227,14 @@ class Interp:
         self.stack: list[str] = []
         self.max_depth = max_depth
         self.executed: set[str] = set()
+        self.laystack: list = []         # (layout_source, layout_dest) of the single-step routines being read
 
     # ------------------------------------------------------------ helpers
     def problem(self, st: State, kind, msg, node, fq):
-        st.tok = st.tok.with_(problems=st.tok.problems + ((kind, msg, getattr(node, "lineno", None), src(node)[:160], fq),))
+        rec = (kind, msg, getattr(node, "lineno", None), src(node)[:160], fq)
+        if rec in st.tok.problems:
+            return          # the same finding at the same place (a body read twice, an override and the engine both recording it)
+        st.tok = st.tok.with_(problems=st.tok.problems + (rec,))
 
     def roots_of(self, v):
         if isinstance(v, Roots):
@@ -182,27 +248,117 @@ class Interp:
             return out
         return set()
 
+    # -- values the interpreter lost that may still be (views of) the arrays
+    def tainted(self, st: State):
+        return set(st.env.get("<mayalias>", ()))
+
+    def set_taint(self, st: State, name, on):
+        cur = self.tainted(st)
+        if on and name not in cur:
+            st.env["<mayalias>"] = tuple(sorted(cur | {name}))
+        elif not on and name in cur:
+            st.env["<mayalias>"] = tuple(sorted(cur - {name}))
+
+    def mentions_arrays(self, e, st: State):
+        """does the expression use (the contents or identity of) one of the arrays, or a name whose unknown value was computed from
+        them?  `x.shape`, `x.size`, `len(x)`... read the description of an array, not the array"""
+        if e is None:
+            return False
+        taint = self.tainted(st)
+        todo = [e]
+        while todo:
+            x = todo.pop()
+            if isinstance(x, ast.Attribute) and x.attr in META_ATTRS:
+                continue
+            if isinstance(x, ast.Call) and isinstance(x.func, ast.Name) and x.func.id == "len":
+                continue
+            if isinstance(x, ast.Name):
+                if x.id in taint:
+                    return True
+                v = st.env.get(x.id)
+                if self.roots_of(v) or (isinstance(v, Closure) and self.closure_mentions_arrays(v, st)):
+                    return True
+            elif isinstance(x, ast.Attribute):
+                s = src(x)
+                if s in taint or (s in st.env and self.roots_of(st.env[s])):
+                    return True
+            todo += list(ast.iter_child_nodes(x))
+        return False
+
+    def closure_mentions_arrays(self, c: "Closure", st: State):
+        own = {a.arg for a in c.node.args.args + c.node.args.kwonlyargs + c.node.args.posonlyargs}
+        taint = self.tainted(st)
+        body = c.node.body if isinstance(c.node.body, list) else [c.node.body]
+        for b in body:
+            for x in ast.walk(b):
+                if isinstance(x, ast.Name) and x.id not in own and (x.id in taint or self.roots_of(st.env.get(x.id))):
+                    return True
+        return False
+
+    def write_roots(self, st: State, view, node, fq):
+        """the buffers a store through `view` writes.  AUDIT: `event` reads a write as a MUST-write of every buffer named; a view
+        that is one of several arrays (an element of an un-enumerated list of buffers) writes only one of them: undecided"""
+        if isinstance(view, Roots) and len(view) > 1:
+            self.problem(st, "store-undecided", f"`{src(node)[:70]}` stores through a value that is a view of one of {sorted(view)}; "
+                         "which one could not be followed", node, fq)
+        return set(view)
+
+    @staticmethod
+    def unknown_value(val, value_node):
+        """is `val` a value the interpreter could not follow (neither a view/copy of known arrays nor a literal number)?"""
+        if val is not OPAQUE:
+            return False
+        v = value_node
+        if isinstance(v, ast.UnaryOp) and isinstance(v.op, (ast.USub, ast.UAdd)):
+            v = v.operand
+        return not (isinstance(v, ast.Constant) and isinstance(v.value, (int, float, complex)) and not isinstance(v.value, bool))
+
     def check_extent(self, st: State, view, node, fq, side):
         ext = getattr(view, "extent", None)
         if ext is None or not isinstance(view, Roots):
             return
+        if st.env.get("<lay_dst>") is None and st.env.get("<lay_src>") is None and self.laystack:
+            # inside a kernel called by a single-step routine: the layouts of that step are the ones the data may be in
+            saved = (st.env.get("<lay_src>"), st.env.get("<lay_dst>"))
+            st.env["<lay_src>"], st.env["<lay_dst>"] = self.laystack[-1]
+            try:
+                return self.check_extent(st, view, node, fq, side)
+            finally:
+                st.env["<lay_src>"], st.env["<lay_dst>"] = saved
 
         def unwrap(x):
             while isinstance(x, Sym) and x.kind == "layout":
                 x = x.arg
             return x
         lay = unwrap(ext.arg[0])
-        ok = {repr(unwrap(st.tok.layout))}
+        cands = [unwrap(st.tok.layout)]
         if st.env.get("<lay_dst>") is not None:
-            ok.add(repr(unwrap(st.env["<lay_dst>"])))
+            cands.append(unwrap(st.env["<lay_dst>"]))
         if st.env.get("<lay_src>") is not None:
-            ok.add(repr(unwrap(st.env["<lay_src>"])))
+            cands.append(unwrap(st.env["<lay_src>"]))
+        ok = {repr(c) for c in cands}
         if repr(lay) not in ok:
+            # AUDIT `extent` (-> D5 violated): true when the layout whose size cuts the view and the layouts the data may be in are
+            # all IDENTIFIED layouts (name / step symbols: distinct symbols are distinct layouts of the route) and differ.  A layout
+            # that was not identified (unknown key, a value the interpreter lost) is not `another layout`: undecided
+            def known(x):
+                return isinstance(x, Sym) and x.kind in ("name", "step")
+            if not known(lay) or not all(known(c) for c in cands):
+                self.problem(st, "extent-undecided", f"{side} view is cut to the size of layout `{lay}`; whether that is the layout "
+                             f"the data is in ({sorted(ok)}) could not be established", node, fq)
+                return
             self.problem(st, "extent", f"{side} view is cut to the size of layout `{lay}` but the data is in layout "
                          f"{sorted(ok)}: elements beyond that size are not copied", node, fq)
 
     def event(self, st: State, reads: set, writes: set, node, fq, what=""):
-        """apply a read/write event to the field token"""
+        """apply a read/write event to the field token.
+        AUDIT `clobber` / `stale-read` (-> D3 violated) and the token location itself (-> D2/D1 verdicts): true when (1) `reads` is
+        the complete set of buffers the stored value was computed from - every place that builds `reads` from a value it could not
+        follow records a `store-undecided` / `array-argument-undecided` problem on the path instead of passing an empty set;
+        (2) `writes` are must-writes of single buffers (write_roots); (3) no store or call on the path was skipped - every statement
+        or call form that is not modelled records a problem whose kind is in UNDECIDED_KINDS.  The engine cannot withdraw a finding
+        it already recorded when the path later turns undecided: callers must demote the diagnoses of a path that carries a problem
+        of an UNDECIDED_KINDS kind (the layout checks do: `lost`)."""
         t = st.tok
         if not writes:
             return
@@ -256,6 +412,33 @@ class Interp:
                     return base.arg
                 return Sym("lattr", (base.arg, e.attr))
             return OPAQUE
+        if isinstance(e, ast.Lambda):
+            return Closure(e)
+        if isinstance(e, ast.NamedExpr):
+            v = self.ev(e.value, st, fq)
+            if isinstance(e.target, ast.Name):
+                self.assign_name(st, e.target.id, v, e.value)
+            return v
+        if isinstance(e, ast.IfExp):
+            t = self.ev(e.test, st, fq)
+            if isinstance(t, bool):
+                return self.ev(e.body if t else e.orelse, st, fq)
+            a, b = self.ev(e.body, st, fq), self.ev(e.orelse, st, fq)
+            return a if repr(a) == repr(b) else OPAQUE
+        if isinstance(e, (ast.List, ast.Tuple)) and any(isinstance(x, ast.Starred) for x in e.elts):
+            # [a, *xs]: the items of xs, not xs itself, are elements of the new sequence
+            out = []
+            for x in e.elts:
+                if isinstance(x, ast.Starred):
+                    v = self.ev(x.value, st, fq)
+                    if not isinstance(v, (list, tuple)):
+                        return OPAQUE
+                    out += list(v)
+                else:
+                    out.append(self.ev(x, st, fq))
+            return out if isinstance(e, ast.List) else tuple(out)
+        if isinstance(e, (ast.ListComp, ast.GeneratorExp)):
+            return self.comprehension(e, st, fq)
         if isinstance(e, ast.Subscript):
             base = self.ev(e.value, st, fq)
             if isinstance(base, Roots):
@@ -263,9 +446,27 @@ class Interp:
                     up = self.ev(e.slice.upper, st, fq)
                     if isinstance(up, Sym) and up.kind == "lattr" and up.arg[1] == "size":
                         return with_extent(base, up)
+                # AUDIT: `a view of the same buffers` is true of basic indexing; an index that is itself an array or a list
+                # display (advanced indexing) gives a copy
+                if not isinstance(e.slice, ast.Slice):
+                    iv = self.ev(e.slice, st, fq)
+                    if isinstance(iv, (Roots, Fresh)) or isinstance(e.slice, ast.List) \
+                            or (isinstance(e.slice, ast.Tuple) and any(isinstance(x, ast.List) for x in e.slice.elts)):
+                        return Fresh(frozenset(set(base) | self.roots_of(iv)))
                 return base
             if isinstance(base, Fresh):
                 return base
+            if isinstance(base, tuple):
+                if isinstance(e.slice, ast.Slice):
+                    lo = self.ev(e.slice.lower, st, fq) if e.slice.lower else None
+                    hi = self.ev(e.slice.upper, st, fq) if e.slice.upper else None
+                    if all(x is None or (isinstance(x, int) and not isinstance(x, bool)) for x in (lo, hi)) and e.slice.step is None:
+                        return base[lo:hi]
+                    return OPAQUE
+                i = self.ev(e.slice, st, fq)
+                if isinstance(i, int) and not isinstance(i, bool) and -len(base) <= i < len(base):
+                    return base[i]
+                return OPAQUE
             if isinstance(base, list):
                 idx = self.ev(e.slice, st, fq)
                 if isinstance(e.slice, ast.Slice):
@@ -280,25 +481,9 @@ class Interp:
                     except IndexError:
                         return OPAQUE
                 return OPAQUE
-            s = src(e.value)
             # self._layouts[name] / self._route_map[a][b] / self._managers[self._handlers[name]]
-            if s == "self._layouts":
-                return Sym("layout", self.ev(e.slice, st, fq))
-            if s == "self._handlers":
-                return Sym("handler_idx", self.ev(e.slice, st, fq))
-            if s == "self._managers":
-                k = self.ev(e.slice, st, fq)
-                if isinstance(k, Sym) and k.kind == "handler_idx":
-                    return Sym("mgr", k.arg)
-                return Sym("mgr", k)
-            if isinstance(e.value, ast.Subscript) and src(e.value.value) == "self._route_map":
-                n = self.scenario.get("nSteps")
-                if n is None:
-                    return OPAQUE
-                return [Sym("step", i) for i in range(n)]
-            if isinstance(e.slice, ast.Slice):
-                return OPAQUE
-            return OPAQUE
+            v = self.table_lookup(e, st, fq)
+            return OPAQUE if v is None else v
         if isinstance(e, ast.Call):
             return self.call_value(e, st, fq)
         if isinstance(e, ast.Tuple):
@@ -321,6 +506,15 @@ class Interp:
                         return a // b
                 except ZeroDivisionError:
                     return OPAQUE
+            if isinstance(a, (list, tuple)) or isinstance(b, (list, tuple)):
+                # sequences: concatenation / repetition, never an array computed from their items
+                if isinstance(e.op, ast.Add) and type(a) is type(b):
+                    return a + b
+                if isinstance(e.op, ast.Mult):
+                    s_, k_ = (a, b) if isinstance(a, (list, tuple)) else (b, a)
+                    if isinstance(k_, int) and not isinstance(k_, bool) and 0 <= k_ <= 16:
+                        return s_ * k_
+                return OPAQUE
             r = self.roots_of(a) | self.roots_of(b)
             if r:
                 return Fresh(frozenset(r))
@@ -340,10 +534,22 @@ class Interp:
             op = e.ops[0]
             if isinstance(op, (ast.Is, ast.IsNot)):
                 res = None
+                if isinstance(a, Roots) and isinstance(b, Roots):
+                    # identity of two views: decided only for whole single buffers / disjoint buffers
+                    if isinstance(e.left, ast.Name) and isinstance(e.comparators[0], ast.Name) and e.left.id == e.comparators[0].id:
+                        res = True          # (two different views of one buffer are different objects: not decided)
+                    elif not (set(a) & set(b)):
+                        res = False
+                if a is None and b is not None:
+                    a, b = b, a
                 if b is None:
                     if a is None:
                         res = True
-                    elif isinstance(a, (Roots, Fresh, _NotNone, Sym, int, str, list, tuple)):
+                    # AUDIT: `is not None` is known for arrays, sequences, numbers, strings and for the symbols that stand for
+                    # an object the code has already used (layout, manager, name, route step); an attribute of such an object
+                    # (lattr / mattr / cmp ...) may well be None: unknown
+                    elif isinstance(a, (Roots, Fresh, _NotNone, int, str, list, tuple)) \
+                            or (isinstance(a, Sym) and a.kind in ("name", "step", "layout", "mgr", "handler_idx")):
                         res = False
                 if res is None:
                     return OPAQUE
@@ -367,18 +573,153 @@ class Interp:
                 if all(v is False for v in vals):
                     return False
             return OPAQUE
-        if isinstance(e, ast.ListComp):
-            return OPAQUE
         if isinstance(e, ast.Starred):
-            return self.ev(e.value, st, fq)
+            # AUDIT: a starred expression outside a display/call argument list never reaches here in valid code; its value is the
+            # unpacked items, not the sequence: unknown
+            return OPAQUE
+        # AUDIT (default branch): Dict / Set / Lambda / JoinedStr / Await / Yield / chained comparisons / slices ...: unknown value
         return OPAQUE
+
+    def comprehension(self, e, st: State, fq):
+        """a comprehension over a sequence whose items are known is the list of its element expression (its own variables are
+        bound in a copy of the state); over an unknown sequence: views of an array stay views of that array; anything else unknown"""
+        if len(e.generators) != 1 or e.generators[0].is_async:
+            return OPAQUE
+        g = e.generators[0]
+        it = self.ev(g.iter, st, fq)
+        if isinstance(it, (list, tuple)) and not g.ifs:
+            out = []
+            for x in it:
+                s2 = st.fork()
+                self.bind_target(g.target, x, s2)
+                out.append(self.ev(e.elt, s2, fq))
+            return out
+        s2 = st.fork()
+        self.bind_target(g.target, self.abstract_elem(g.iter, st, fq), s2)
+        v = self.ev(e.elt, s2, fq)
+        if isinstance(v, Roots):
+            return Roots(v)
+        if isinstance(v, Fresh):
+            return v
+        return OPAQUE
+
+    def abstract_elem(self, e, st: State, fq):
+        """what the loop variable(s) of `for ... in e` stand for when the items cannot be enumerated: an item of (a view of) an
+        array is a view of that array; enumerate/zip give tuples of such items; anything else is unknown"""
+        if isinstance(e, ast.Call) and isinstance(e.func, ast.Name) and not any(isinstance(a, ast.Starred) for a in e.args):
+            nm = e.func.id
+            if nm == "enumerate" and e.args:
+                return (OPAQUE, self.abstract_elem(e.args[0], st, fq))
+            if nm == "zip" and e.args and not e.keywords:
+                return tuple(self.abstract_elem(a, st, fq) for a in e.args)
+            if nm in ("reversed", "list", "tuple", "iter", "sorted") and len(e.args) == 1:
+                return self.abstract_elem(e.args[0], st, fq)
+        v = self.ev(e, st, fq)
+        if isinstance(v, Roots):
+            return Roots(v)
+        if isinstance(v, Fresh):
+            return v
+        if isinstance(v, (list, tuple)) and v:
+            if len({repr(x) for x in v}) == 1:
+                return v[0]
+            if all(isinstance(x, Roots) for x in v):
+                return Roots(self.roots_of(v))
+        return OPAQUE
+
+    def generator_items(self, e, st: State, fq):
+        """the list of values a call of a generator function of the analysed module yields, when its body can be followed on one
+        path with known loop items and touches none of the arrays (it only hands names and buffers on); else None"""
+        try:
+            tg = [(r, q, n) for r, q, n in self.prog.resolve(e, self.rel) if r == self.rel]
+        except Exception:
+            return None
+        if len(tg) != 1:
+            return None
+        _, q, fn = tg[0]
+        if not any(isinstance(y, ast.Yield) for y in ast.walk(fn)) \
+                or any(isinstance(y, (ast.YieldFrom, ast.Return)) and getattr(y, "value", None) is not None for y in ast.walk(fn)):
+            return None
+        if q in self.stack or len(self.stack) >= self.max_depth:
+            return None
+        params = [a.arg for a in fn.args.posonlyargs + fn.args.args]
+        static = any(isinstance(d, ast.Name) and d.id == "staticmethod" for d in fn.decorator_list)
+        if params and params[0] in ("self", "cls") and not static:
+            params = params[1:]
+        if any(isinstance(a, ast.Starred) for a in e.args) or e.keywords or len(e.args) != len(params) \
+                or fn.args.vararg or fn.args.kwarg or fn.args.kwonlyargs:
+            return None
+        env2 = {k: v for k, v in st.env.items() if k.startswith("self.")}
+        env2.update({p_: self.ev(a, st, fq) for p_, a in zip(params, e.args)})
+        env2["self"] = OPAQUE
+        env2["<yields>"] = ()
+        s2 = State(env2, st.tok)
+        self.stack.append(q)
+        try:
+            outs = self.run(fn, s2, q)
+        except AnalysisError:
+            return None
+        finally:
+            self.stack.pop()
+        if len(outs) != 1 or outs[0].tok.problems != st.tok.problems or outs[0].tok.writes != st.tok.writes \
+                or outs[0].tok.loc != st.tok.loc or outs[0].env.get("<yields>") is None:
+            return None
+        return list(outs[0].env["<yields>"])
 
     def call_value(self, e: ast.Call, st: State, fq):
         f = e.func
         name = f.id if isinstance(f, ast.Name) else f.attr if isinstance(f, ast.Attribute) else ""
         recv = f.value if isinstance(f, ast.Attribute) else None
-        args = [self.ev(a, st, fq) for a in e.args]
+        if any(isinstance(a, ast.Starred) for a in e.args):
+            # f(*xs): the items of xs are the arguments
+            args = []
+            for a in e.args:
+                if isinstance(a, ast.Starred):
+                    v = self.ev(a.value, st, fq)
+                    if not isinstance(v, (list, tuple)):
+                        args = None
+                        break
+                    args += list(v)
+                else:
+                    args.append(self.ev(a, st, fq))
+            if args is None:
+                if self.mentions_arrays(e, st) and not (isinstance(f, ast.Name) and f.id in INSPECTING_BUILTINS):
+                    self.problem(st, "call-undecided", f"the star-expanded arguments of `{src(e)[:70]}` could not be followed", e, fq)
+                return OPAQUE
+        else:
+            args = [self.ev(a, st, fq) for a in e.args]
+        kwvals = {k.arg: self.ev(k.value, st, fq) for k in e.keywords}
+        if recv is None and name in ("zip", "enumerate", "reversed") and args \
+                and all(k == "start" and name == "enumerate" for k in kwvals):
+            allv = args + list(kwvals.values())
+            if name == "zip" and all(isinstance(a, (list, tuple)) for a in allv):
+                return [tuple(x) for x in zip(*allv)]
+            if name == "enumerate" and isinstance(allv[0], (list, tuple)) and (len(allv) == 1 or
+                                                                                 (isinstance(allv[1], int) and not isinstance(allv[1], bool))):
+                return [tuple(x) for x in enumerate(allv[0], *allv[1:2])]
+            if name == "reversed" and isinstance(allv[0], (list, tuple)):
+                return list(reversed(allv[0]))
+            return OPAQUE
+        if recv is None and name == "next" and 1 <= len(e.args) <= 2 and isinstance(e.args[0], ast.Name):
+            nm = e.args[0].id
+            if nm in st.env.get("<iters>", ()) and isinstance(st.env.get(nm), list):
+                # an iterator hands out its first remaining item and keeps the rest
+                items = st.env[nm]
+                if items:
+                    st.env[nm] = list(items[1:])
+                    return items[0]
+                return args[1] if len(args) == 2 else OPAQUE
+            # AUDIT: next() of something whose items are not known CONSUMES it: the name no longer stands for the full sequence
+            if isinstance(st.env.get(nm), (list, tuple)):
+                st.env[nm] = OPAQUE
+            return OPAQUE
+        if recv is None and isinstance(st.env.get(name), Closure) and isinstance(f, ast.Name):
+            return self.nested_call(e, st, fq)
         if recv is not None and isinstance(recv, ast.Name) and recv.id in ("np", "numpy"):
+            out = kwvals.get("out")
+            if out is not None or name in NP_WRITES_FIRST:
+                return self.np_store_call(e, name, args, kwvals, st, fq)
+            if name in NP_ALLOC_FUNCS:
+                return Fresh(frozenset())          # a new local array that holds no field data yet
             if name in NP_VIEW_FUNCS and args:
                 r = self.roots_of(args[0])
                 if isinstance(args[0], Roots):
@@ -386,37 +727,225 @@ class Interp:
                             and isinstance(args[1][0], Sym) and args[1][0].kind == "lattr" and args[1][0].arg[1] == "size":
                         return [with_extent(args[0], args[1][0]), Roots(args[0])]
                     if name in ("split", "array_split"):
-                        return [Roots(args[0]), Roots(args[0])]
+                        # AUDIT: the number of parts is what the second argument says: one cut -> two parts (the form modelled
+                        # from the start); a longer list of cuts / an integer: that many views; unknown: `some views of the array`
+                        cuts = args[1] if len(args) > 1 else kwvals.get("indices_or_sections")
+                        if isinstance(cuts, list):
+                            return [Roots(args[0]) for _ in range(len(cuts) + 1)]
+                        if isinstance(cuts, int) and not isinstance(cuts, bool) and 0 < cuts <= 64:
+                            return [Roots(args[0]) for _ in range(cuts)]
+                        if isinstance(e.args[1] if len(e.args) > 1 else None, ast.List) and len(e.args[1].elts) == 1:
+                            return [Roots(args[0]), Roots(args[0])]
+                        return Roots(args[0])
                     return args[0]
                 return Fresh(frozenset(r)) if r else OPAQUE
             r = set()
-            for a in args:
+            for a in list(args) + list(kwvals.values()):
                 r |= self.roots_of(a)
+            if name in NP_MAYBE_VIEW or (name == "array" and "copy" in kwvals and kwvals["copy"] is not True):
+                return MaybeView(frozenset(r)) if r else OPAQUE
             return Fresh(frozenset(r)) if r else OPAQUE
-        if name == "len" and args:
+        if recv is None and name == "len" and args:
             if isinstance(args[0], (list, tuple)):
                 return len(args[0])
             return OPAQUE
-        if name == "range":
-            if all(isinstance(a, int) for a in args) and args:
-                return list(range(*args))
+        if recv is None and name == "range":
+            if all(isinstance(a, int) for a in args) and args and not kwvals:
+                try:
+                    return list(range(*args))
+                except (TypeError, ValueError):
+                    return OPAQUE
             return OPAQUE
-        if name in ("list", "tuple") and args and isinstance(args[0], (list, tuple)):
+        if recv is None and name in ("list", "tuple") and len(args) == 1 and isinstance(args[0], (list, tuple)):
+            return list(args[0]) if name == "list" else tuple(args[0])
+        if recv is None and name == "iter" and len(args) == 1 and isinstance(args[0], (list, tuple)):
             return list(args[0])
+        if recv is not None and name in LIST_MUTATORS:
+            key = recv.id if isinstance(recv, ast.Name) else src(recv)
+            cur = st.env.get(key)
+            if isinstance(cur, list):
+                # AUDIT: a list that is changed inside an expression is no longer the list that was known (it was left as it
+                # was: a stale fact).  pop() of a known position is followed; anything else makes the list unknown.  The name
+                # is bound to a NEW list: the old object may be shared with other paths
+                if name == "pop" and len(args) <= 1 and not kwvals and cur \
+                        and (not args or (isinstance(args[0], int) and not isinstance(args[0], bool) and -len(cur) <= args[0] < len(cur))):
+                    new = list(cur)
+                    item = new.pop(*args)
+                    st.env[key] = new
+                    return item
+                tainted = self.mentions_arrays(e, st)
+                st.env[key] = OPAQUE
+                if isinstance(recv, ast.Name):
+                    self.set_taint(st, key, tainted)
+                return OPAQUE
         if recv is not None:
             base = self.ev(recv, st, fq)
             if isinstance(base, Roots):
                 if name in VIEW_METHODS:
                     return base
+                if name == "astype" and kwvals.get("copy", True) is not True:
+                    return MaybeView(frozenset(base))
                 if name in COPY_METHODS:
                     return Fresh(frozenset(base))
+                if name in ARRAY_PURE_METHODS:
+                    return Fresh(frozenset(base | self.roots_of(args)))
+                # AUDIT (default branch): a method of an array that is in none of the tables may store into it
+                self.problem(st, "call-undecided", f"`{src(e)[:70]}`: what the method `{name}` does with the array is not known", e, fq)
                 return OPAQUE
             if isinstance(base, Fresh):
                 return base if name in VIEW_METHODS | COPY_METHODS else OPAQUE
             if name == "getLayout" and args:
                 return Sym("layout", args[0])
-        # method call with effects returning a value is handled in exec_call (statements only)
+            if name == "get" and len(args) == 1 and not kwvals:
+                # self.X.get(k) reads the table like self.X[k] (a key that is absent gives None, on which the code then fails:
+                # not a silent wrong result)
+                sub = ast.Subscript(value=recv, slice=e.args[0], ctx=ast.Load())
+                v = self.table_lookup(sub, st, fq)
+                if v is not None:
+                    return v
+        # a routine of the analysed module called inside an expression: followed when it does not fork the path
+        gen = self.generator_items(e, st, fq)
+        if gen is not None:
+            return gen
+        return self.nested_call(e, st, fq)
+
+    def table_lookup(self, e: ast.Subscript, st: State, fq):
+        """self._layouts[name] / self._handlers[name] / self._managers[k] / self._route_map[a][b] -> symbol, else None"""
+        s = src(e.value)
+        if s == "self._layouts":
+            return Sym("layout", self.ev(e.slice, st, fq))
+        if s == "self._handlers":
+            return Sym("handler_idx", self.ev(e.slice, st, fq))
+        if s == "self._managers":
+            k = self.ev(e.slice, st, fq)
+            if isinstance(k, Sym) and k.kind == "handler_idx":
+                return Sym("mgr", k.arg)
+            return Sym("mgr", k)
+        inner = e.value
+        is_row = (isinstance(inner, ast.Subscript) and src(inner.value) == "self._route_map") or \
+            (isinstance(inner, ast.Call) and isinstance(inner.func, ast.Attribute) and inner.func.attr == "get"
+             and src(inner.func.value) == "self._route_map" and len(inner.args) == 1 and not inner.keywords)
+        if is_row:
+            n = self.scenario.get("nSteps")
+            if n is None:
+                return OPAQUE
+            return [Sym("step", i) for i in range(n)]
+        return None
+
+    def np_store_call(self, e, name, args, kwvals, st: State, fq):
+        """np.<f>(..., out=X) and the numpy functions that store into their first argument: the store X[...] = f(other arguments)"""
+        if name in NP_WRITES_FIRST:
+            dst = args[0] if args else kwvals.get("dst", kwvals.get("a", OPAQUE))
+            rest = list(args[1:]) + [v for k, v in kwvals.items() if k not in ("dst", "a")]
+            dnode = e.args[0] if e.args else e
+        else:
+            dst = kwvals.get("out")
+            rest = list(args) + [v for k, v in kwvals.items() if k != "out"]
+            dnode = next(k.value for k in e.keywords if k.arg == "out")
+        if isinstance(dst, (tuple, list)) and len(dst) == 1:
+            dst = dst[0]
+        reads = set()
+        for v in rest:
+            reads |= self.roots_of(v)
+        if isinstance(dst, MaybeView):
+            self.problem(st, "store-undecided", f"`{src(e)[:70]}` stores through `{src(dnode)[:40]}`, which may be a copy or the array itself", e, fq)
+            return dst
+        if isinstance(dst, Fresh):
+            self.grow_fresh(dnode, dst, reads, st)
+            return Fresh(frozenset(dst.derived | reads))
+        if isinstance(dst, Roots):
+            lost = [a for a, v in zip(list(e.args) + [k.value for k in e.keywords], list(args) + list(kwvals.values()))
+                    if v is not dst and v is OPAQUE and self.mentions_arrays(a, st)]
+            if lost:
+                self.problem(st, "store-undecided", f"the value stored by `{src(e)[:70]}` could not be followed back to the arrays of the transpose", e, fq)
+            if "where" in kwvals:
+                self.problem(st, "store-undecided", f"`{src(e)[:70]}` stores only where the mask says; which elements keep their old value is not followed", e, fq)
+            self.check_extent(st, dst, e, fq, "destination")
+            for v in rest:
+                self.check_extent(st, v, e, fq, "source")
+            self.event(st, reads | (set(dst) if name not in ("copyto",) and name in NP_WRITES_FIRST else set()),
+                       self.write_roots(st, dst, e, fq), e, fq)
+            return dst
+        if self.mentions_arrays(dnode, st) or dst is OPAQUE and any(self.roots_of(v) for v in rest):
+            self.problem(st, "array-argument-undecided", f"the target of `{src(e)[:60]}` could not be followed", e, fq)
         return OPAQUE
+
+    def grow_fresh(self, node, cur, reads, st: State):
+        """a local array (the name under subscripts / view methods of `node`) now also holds what was stored into it"""
+        b = node
+        for _ in range(8):
+            if isinstance(b, ast.Subscript):
+                b = b.value
+            elif isinstance(b, ast.Call) and isinstance(b.func, ast.Attribute) and b.func.attr in VIEW_METHODS:
+                b = b.func.value
+            elif isinstance(b, ast.Attribute) and b.attr in VIEW_ATTRS:
+                b = b.value
+            else:
+                break
+        if isinstance(b, ast.Name) and isinstance(st.env.get(b.id), Fresh) and not isinstance(st.env.get(b.id), MaybeView):
+            st.env[b.id] = Fresh(frozenset(st.env[b.id].derived | set(reads)))
+            return True
+        return False
+
+    def nested_call(self, e: ast.Call, st: State, fq):
+        """value of a call met inside an expression.  A routine of the analysed module (or a local function) is followed in place
+        when that gives ONE resulting state; AUDIT: otherwise its effects are not `none`: a call that is given (or, for a local
+        function, can see) the arrays and is not followed makes the path undecided"""
+        f = e.func
+        clo = st.env.get(f.id) if isinstance(f, ast.Name) else None
+        outs = None
+        if isinstance(clo, Closure):
+            outs = self.invoke_closure(e, clo, st, fq)
+        else:
+            try:
+                tg = [(r, q, n) for r, q, n in self.prog.resolve(e, self.rel) if r == self.rel]
+            except Exception:
+                tg = []
+            if tg and any(isinstance(y, (ast.Yield, ast.YieldFrom)) for _, _, n in tg for y in ast.walk(n)):
+                outs = []          # a generator that generator_items could not read
+            elif tg and (self.mentions_arrays(e, st) or any(self.returns_new_array(n) for _, _, n in tg)):
+                outs = self.exec_call(e, st.fork(), fq, want_value=True)
+            elif tg:
+                return OPAQUE      # an analysed routine that is handed none of the arrays: its value is not needed
+        if outs is None:
+            self.unfollowed_call(e, st, fq)
+            return OPAQUE
+        live = [(s, v) for s, v in outs]
+        if len(live) == 1:
+            s, v = live[0]
+            st.env, st.tok = s.env, s.tok
+            return v
+        if self.mentions_arrays(e, st) or any(s.tok.writes != st.tok.writes or s.tok.loc != st.tok.loc for s, _ in live):
+            self.problem(st, "call-undecided", f"`{src(e)[:70]}` (inside an expression) could not be followed on a single path", e, fq)
+        return OPAQUE
+
+    @staticmethod
+    def returns_new_array(fn):
+        """does the routine return something it obtained from numpy (a helper that allocates a work array)?"""
+        return any(isinstance(r, ast.Return) and r.value is not None and any(
+            isinstance(c, ast.Call) and isinstance(c.func, ast.Attribute) and isinstance(c.func.value, ast.Name) and c.func.value.id in ("np", "numpy")
+            for c in ast.walk(fn)) for r in ast.walk(fn))
+
+    def unfollowed_call(self, e: ast.Call, st: State, fq):
+        """AUDIT: a call that is none of the analysed routines, not a numpy function, not a method of an array and not a builtin
+        that only inspects its arguments may store into an array it is handed: the path is undecided, the call is not `no effect`"""
+        f = e.func
+        nm = f.attr if isinstance(f, ast.Attribute) else f.id if isinstance(f, ast.Name) else ""
+        if nm in COLLECTIVES or nm in ("warn", "print", "format", "Barrier", "barrier"):
+            return
+        if isinstance(f, ast.Name) and f.id in INSPECTING_BUILTINS:
+            # map(f, xs) / filter / sorted(key=f) with a local function that sees the arrays
+            for a in list(e.args) + [k.value for k in e.keywords]:
+                if isinstance(a, ast.Name) and isinstance(st.env.get(a.id), Closure) and self.closure_mentions_arrays(st.env[a.id], st):
+                    self.problem(st, "call-undecided", f"`{src(e)[:70]}` hands on a local function that uses the arrays", e, fq)
+            return
+        if isinstance(f, ast.Attribute) and isinstance(f.value, ast.Name) and f.value.id in ("np", "numpy", "math", "warnings"):
+            return
+        # (decided on the text of the arguments: evaluating them a second time would consume iterators twice)
+        given = [a for a in list(e.args) + [k.value for k in e.keywords] if self.mentions_arrays(a, st)]
+        recv_arr = isinstance(f, ast.Attribute) and self.mentions_arrays(f.value, st)     # (array receivers were handled by call_value)
+        if given or recv_arr:
+            self.problem(st, "call-undecided", f"`{src(e)[:70]}` hands an array of the transpose to a routine that was not analysed", e, fq)
 
     # ------------------------------------------------------------ statements
     def run(self, fn: ast.FunctionDef, st: State, fq: str) -> list[State]:
@@ -435,8 +964,8 @@ class Interp:
                 else:
                     nxt.extend(self.stmt(stn, s, fq))
             states = self.merge(nxt)
-            if len(states) > 400:
-                raise AnalysisError(f"state explosion in {fq}")
+            if len(states) > MAX_STATES:
+                states = self.widen(states, stn, fq)
         return states
 
     @staticmethod
@@ -458,12 +987,98 @@ class Interp:
             out.append(s)
         return out
 
-    def assign_name(self, st, name, val):
+    def widen(self, states, node, fq):
+        """too many states: those that agree on the token (where the field is, what was written, which findings) and on the
+        control state are joined; a local on which they disagree becomes unknown and the joined path is marked undecided
+        (`merge-undecided`) - a per-path `cannot decide`, not a failure of the whole analysis.  If that is not enough the
+        analysis gives up as before."""
+        groups = {}
+        for s in states:
+            t = s.tok
+            k = (s.ret, repr(s.retval), t.loc, t.prev, repr(t.layout), t.writes, tuple((p[0], p[2], p[4]) for p in t.problems),
+                 repr(t.attrs), s.env.get("<loopctl>"))
+            groups.setdefault(k, []).append(s)
+        out = []
+        for grp in groups.values():
+            first = grp[0]
+            if len(grp) > 1:
+                keys = set().union(*[set(g.env) for g in grp])
+                env = {}
+                for k in keys:
+                    vals = {repr(g.env.get(k, OPAQUE)) for g in grp}
+                    if len(vals) == 1 and all(k in g.env for g in grp):
+                        env[k] = first.env[k]
+                    elif k.startswith("<"):
+                        if k in first.env and k in ("<lay_dst>", "<lay_src>"):
+                            env[k] = first.env[k]
+                        # (other bookkeeping entries are dropped: no iterator / fact / yield list is known any more)
+                    else:
+                        env[k] = OPAQUE
+                first.env = env
+                self.problem(first, "merge-undecided", f"{len(grp)} paths through {fq} were joined at `{src(node)[:50]}` (too many "
+                             "combinations of branch outcomes): the values they disagree on are unknown from here", node, fq)
+            out.append(first)
+        if len(out) > MAX_STATES:
+            raise AnalysisError(f"state explosion in {fq}")
+        return out
+
+    def assign_name(self, st, name, val, value_node=None):
         if name in self.scenario and name != "nSteps_unused":
             val = self.scenario[name]
         st.env[name] = val
+        # a name that now holds a value the interpreter lost, computed from the arrays, may be (a view of) one of them
+        self.set_taint(st, name, val is OPAQUE and value_node is not None and self.mentions_arrays(value_node, st))
+        its = st.env.get("<iters>", ())
+        if name in its:
+            st.env["<iters>"] = tuple(x for x in its if x != name)
+
+    def moves_field(self, loop):
+        """does the loop body call a single-step routine / the public transpose of the analysed module (a layout step)?"""
+        for c in ast.walk(loop):
+            if isinstance(c, ast.Call) and isinstance(c.func, (ast.Attribute, ast.Name)):
+                try:
+                    tg = self.prog.resolve(c, self.rel)
+                except Exception:
+                    tg = []
+                for _, _, fn in tg:
+                    ps = {a.arg for a in fn.args.args}
+                    if {"layout_source", "layout_dest"} <= ps or {"source_name", "dest_name"} <= ps:
+                        return True
+        return False
+
+    def before_store(self, t, st: State, fq, node):
+        """checks on the TARGET of a store that hold whatever a subclass does with the store afterwards"""
+        if isinstance(t, (ast.Tuple, ast.List)):
+            for x in t.elts:
+                self.before_store(x, st, fq, node)
+            return
+        if isinstance(t, ast.Starred):
+            return self.before_store(t.value, st, fq, node)
+        if isinstance(t, ast.Subscript) or (isinstance(t, ast.Attribute) and t.attr in ("flat", "real", "imag")):
+            b = t.value
+            for _ in range(8):
+                if isinstance(b, ast.Subscript):
+                    b = b.value
+                elif isinstance(b, ast.Call) and isinstance(b.func, ast.Attribute) and b.func.attr in VIEW_METHODS:
+                    b = b.func.value
+                elif isinstance(b, ast.Attribute) and b.attr in VIEW_ATTRS:
+                    b = b.value
+                else:
+                    break
+            hit = isinstance(b, ast.Name) and isinstance(st.env.get(b.id), MaybeView)
+            if not hit and not any(isinstance(c, ast.Call) and isinstance(c.func, ast.Name) and c.func.id == "next" for c in ast.walk(t.value)):
+                hit = isinstance(self.ev(t.value, st.fork(), fq), MaybeView)
+            if hit:
+                self.problem(st, "store-undecided", f"`{src(node)[:70]}` stores through `{src(b)[:40]}`, which may be a copy or the array itself", node, fq)
 
     def stmt(self, n, st: State, fq) -> list[State]:
+        if isinstance(n, ast.AnnAssign):
+            if n.value is None:
+                return [st]
+            n2 = ast.Assign(targets=[n.target], value=n.value)
+            ast.copy_location(n2, n)
+            n2._parent = getattr(n, "_parent", None)
+            return self.stmt(n2, st, fq)
         if isinstance(n, ast.Assign):
             if isinstance(n.value, ast.Call):
                 outs = self.exec_call(n.value, st, fq, want_value=True)
@@ -472,28 +1087,85 @@ class Interp:
             res = []
             for s, val in outs:
                 for t in n.targets:
+                    self.before_store(t, s, fq, n)
                     self.assign(t, val, n.value, s, fq, n)
+                if len(n.targets) == 1 and isinstance(n.targets[0], ast.Name) and isinstance(n.value, ast.Call) \
+                        and isinstance(n.value.func, (ast.Name, ast.Attribute)):
+                    # names bound to an ITERATOR (zip / iter / map / enumerate / reversed / a generator call): next() and
+                    # `for` consume it
+                    fnm = n.value.func.id if isinstance(n.value.func, ast.Name) else n.value.func.attr
+                    is_iter = (isinstance(n.value.func, ast.Name) and fnm in ITERATOR_MAKERS) or self.is_generator_call(n.value)
+                    its = tuple(x for x in s.env.get("<iters>", ()) if x != n.targets[0].id)
+                    if is_iter or its != s.env.get("<iters>", ()):
+                        s.env["<iters>"] = its + ((n.targets[0].id,) if is_iter else ())
                 res.append(s)
             return res
         if isinstance(n, ast.AugAssign):
+            self.before_store(n.target, st, fq, n)
             tv = self.ev(n.target, st, fq) if not isinstance(n.target, ast.Name) else st.env.get(n.target.id, OPAQUE)
             v = self.ev(n.value, st, fq)
             if isinstance(n.target, ast.Subscript):
                 base = self.ev(n.target.value, st, fq)
                 if isinstance(base, Roots):
-                    self.event(st, set(base) | self.roots_of(v), set(base), n, fq)
+                    if self.unknown_value(v, n.value) and self.mentions_arrays(n.value, st):
+                        self.problem(st, "store-undecided", f"the value combined in by `{src(n)[:70]}` could not be followed back to "
+                                     "the arrays of the transpose", n, fq)
+                    self.event(st, set(base) | self.roots_of(v), self.write_roots(st, base, n, fq), n, fq)
+                elif isinstance(base, Fresh):
+                    self.grow_fresh(n.target, base, self.roots_of(v), st)
+                elif isinstance(base, list):
+                    idx = self.ev(n.target.slice, st, fq)
+                    if isinstance(idx, int) and not isinstance(idx, bool) and -len(base) <= idx < len(base):
+                        base[idx] = OPAQUE
+                    elif isinstance(n.target.value, ast.Name):
+                        st.env[n.target.value.id] = OPAQUE
+                elif base is OPAQUE and self.mentions_arrays(n.target.value, st):
+                    self.problem(st, "store-undecided", f"`{src(n)[:70]}` updates something computed from the arrays that could not be "
+                                 "followed", n, fq)
             elif isinstance(n.target, ast.Name):
                 if isinstance(tv, Roots):
-                    self.event(st, set(tv) | self.roots_of(v), set(tv), n, fq)
-                elif isinstance(tv, int) and isinstance(v, int):
+                    if self.unknown_value(v, n.value) and self.mentions_arrays(n.value, st):
+                        self.problem(st, "store-undecided", f"the value combined in by `{src(n)[:70]}` could not be followed back to "
+                                     "the arrays of the transpose", n, fq)
+                    self.event(st, set(tv) | self.roots_of(v), self.write_roots(st, tv, n, fq), n, fq)
+                elif isinstance(tv, Fresh):
+                    st.env[n.target.id] = Fresh(frozenset(tv.derived | self.roots_of(v)))
+                elif isinstance(tv, int) and isinstance(v, int) and not isinstance(tv, bool) and not isinstance(v, bool):
                     b = ast.BinOp(left=ast.Constant(tv), op=n.op, right=ast.Constant(v))
                     st.env[n.target.id] = self.ev(b, st, fq)
                 else:
+                    # (a list that is extended, a counter with an unknown step ...)
                     st.env[n.target.id] = OPAQUE
+                    self.set_taint(st, n.target.id, n.target.id in self.tainted(st) or self.mentions_arrays(n.value, st))
+            elif isinstance(n.target, ast.Attribute):
+                s_ = src(n.target)
+                if s_ in st.env:
+                    st.env[s_] = OPAQUE
+                    if s_.startswith("self."):
+                        st.tok = st.tok.with_(attrs=tuple(x for x in st.tok.attrs if x[0] != s_) + ((s_, OPAQUE),))
             return [st]
         if isinstance(n, ast.Expr):
-            if isinstance(n.value, ast.Call):
-                return [s for s, _ in self.exec_call(n.value, st, fq, want_value=False)]
+            v = n.value
+            if isinstance(v, ast.Call):
+                f = v.func
+                if isinstance(f, ast.Attribute) and f.attr in LIST_MUTATORS and isinstance(f.value, ast.Name) \
+                        and isinstance(st.env.get(f.value.id), list):
+                    # a list that is appended to / reordered is no longer the known list
+                    tainted = self.mentions_arrays(v, st)
+                    st.env[f.value.id] = OPAQUE
+                    self.set_taint(st, f.value.id, tainted)
+                    return [st]
+                return [s for s, _ in self.exec_call(v, st, fq, want_value=False)]
+            if isinstance(v, (ast.Yield, ast.YieldFrom)):
+                if isinstance(v, ast.Yield) and st.env.get("<yields>") is not None:
+                    st.env["<yields>"] = tuple(st.env["<yields>"]) + (self.ev(v.value, st, fq) if v.value is not None else None,)
+                elif "<yields>" in st.env:
+                    st.env["<yields>"] = None          # `yield from`: the items are not known
+                return [st]
+            if isinstance(v, ast.Await):
+                self.problem(st, "stmt-undecided", f"`{src(n)[:70]}`: asynchronous calls are not followed", n, fq)
+                return [st]
+            self.ev(v, st, fq)          # (walrus bindings, calls inside the expression)
             return [st]
         if isinstance(n, ast.If):
             t = self.ev(n.test, st, fq)
@@ -513,54 +1185,119 @@ class Interp:
             return self.block(n.body, [a], fq) + self.block(n.orelse, [b], fq)
         if isinstance(n, ast.For):
             it = self.ev(n.iter, st, fq)
-            if isinstance(n.iter, ast.Call) and isinstance(n.iter.func, ast.Name) and n.iter.func.id == "enumerate":
-                inner = self.ev(n.iter.args[0], st, fq) if n.iter.args else OPAQUE
-                if isinstance(inner, list):
-                    it = [(i, x) for i, x in enumerate(inner)]
-                elif isinstance(inner, (Roots, Fresh)):
-                    it = None
-                    states = [st]
-                    for _ in range(2):
-                        for s in states:
-                            self.bind_target(n.target, (OPAQUE, inner), s)
-                        states = self.block(n.body, states, fq)
-                        for s in states:
-                            s.ret = s.ret
-                    return states
-            if isinstance(it, list):
-                states = [st]
-                for x in it:
-                    for s in states:
-                        if not s.ret:
-                            self.bind_target(n.target, x, s)
-                    states = self.block(n.body, states, fq)
-                return states
-            # unknown iterable: one-or-more iterations, run the body twice (stability)
-            states = [st]
-            for _ in range(2):
-                for s in states:
-                    if not s.ret:
-                        self.bind_target(n.target, OPAQUE, s)
-                states = self.block(n.body, states, fq)
-            return states
+            if isinstance(n.iter, ast.Name) and n.iter.id in st.env.get("<iters>", ()) and isinstance(it, (list, tuple)):
+                outs = self.run_loop(n, [st], fq, it)
+                for s_ in outs:
+                    s_.env[n.iter.id] = []          # the iterator is exhausted
+                return outs
+            if not isinstance(it, (list, tuple)):
+                # AUDIT: an unknown sequence is read as one-or-more iterations, the body twice (stability); an element of an
+                # array is a view of it (also through enumerate / zip / reversed).  That is only safe for loops that copy
+                # block by block; a loop whose iterations carry out layout steps must be enumerated: undecided
+                if self.moves_field(n):
+                    self.problem(st, "loop-undecided", f"the iterations of `for {src(n.target)} in {src(n.iter)[:50]}`, which carry out "
+                                 "layout steps, could not be enumerated", n, fq)
+                x = self.abstract_elem(n.iter, st, fq)
+                if x is OPAQUE and self.mentions_arrays(n.iter, st):
+                    for nm in _names_of_target(n.target):
+                        self.set_taint(st, nm, True)
+                it = [x, x]
+            return self.run_loop(n, [st], fq, it)
         if isinstance(n, ast.While):
-            states = self.block(n.body, [st], fq)
-            return states
+            if self.moves_field(n):
+                self.problem(st, "loop-undecided", f"the iterations of `while {src(n.test)[:50]}`, which carry out layout steps, could "
+                             "not be enumerated", n, fq)
+            t = self.ev(n.test, st, fq)
+            if t is False:
+                return self.block(n.orelse, [st], fq) if n.orelse else [st]
+            return self.run_loop(n, [st], fq, [None, None])
         if isinstance(n, ast.Return):
             st.ret = True
             st.retval = self.ev(n.value, st, fq) if n.value is not None else None
             return [st]
-        if isinstance(n, (ast.Assert, ast.Pass, ast.Import, ast.ImportFrom, ast.Global)):
+        if isinstance(n, (ast.Continue, ast.Break)):
+            # leave the iteration: nothing more of the body runs for this state (the loop resets the mark)
+            st.env["<loopctl>"] = "continue" if isinstance(n, ast.Continue) else "break"
+            st.ret = True
+            return [st]
+        if isinstance(n, (ast.Assert, ast.Pass, ast.Import, ast.ImportFrom, ast.Global, ast.Nonlocal)):
+            return [st]
+        if isinstance(n, ast.Delete):
+            for t in n.targets:
+                for nm in _names_of_target(t):
+                    st.env[nm] = OPAQUE
+                    self.set_taint(st, nm, False)
             return [st]
         if isinstance(n, ast.Raise):
             st.ret = True
             st.tok = st.tok.with_(assumed=st.tok.assumed + ("<raises>",))
             return [st]
         if isinstance(n, ast.With):
+            for it_ in n.items:
+                v = self.ev(it_.context_expr, st, fq)
+                if it_.optional_vars is not None:
+                    # `with X as y`: y is whatever X.__enter__() returns: unknown (and possibly one of the arrays X was built from)
+                    for nm in _names_of_target(it_.optional_vars):
+                        st.env[nm] = OPAQUE
+                        self.set_taint(st, nm, self.mentions_arrays(it_.context_expr, st))
             return self.block(n.body, [st], fq)
+        if isinstance(n, ast.Try):
+            # body, else and finally are what normally runs; handlers are the exceptional path and are not followed.
+            # AUDIT: that reading is only safe when no handler does part of the work: a handler that stores into / passes on
+            # the arrays makes the path undecided
+            for h in n.handlers:
+                for x in h.body:
+                    if any(isinstance(y, (ast.Subscript, ast.Call)) and self.mentions_arrays(y, st) for y in ast.walk(x)):
+                        self.problem(st, "try-undecided", f"the handler `except {src(h.type) if h.type else ''}` uses the arrays; the path "
+                                     "through it is not followed", h, fq)
+                        break
+            states = self.block(n.body, [st], fq)
+            states = self.block(n.orelse, states, fq) if n.orelse else states
+            if n.finalbody:
+                for s_ in states:
+                    s_.fin_ret, s_.ret = s_.ret, False
+                states = self.block(n.finalbody, states, fq)
+                for s_ in states:
+                    s_.ret = s_.ret or getattr(s_, "fin_ret", False)
+            return states
         if isinstance(n, (ast.FunctionDef, ast.ClassDef)):
+            if isinstance(n, ast.FunctionDef):
+                st.env[n.name] = Closure(n)
+                self.set_taint(st, n.name, False)
             return [st]
+        # AUDIT (default branch): match / async for / async with / try* / type aliases ...: not modelled.  A statement that is
+        # not read has not `no effect`: when it contains a store or a call the path is undecided
+        if any(isinstance(y, (ast.Call, ast.Assign, ast.AugAssign, ast.AnnAssign, ast.NamedExpr, ast.Delete)) for y in ast.walk(n)):
+            self.problem(st, "stmt-undecided", f"`{src(n)[:60]}`: this kind of statement ({type(n).__name__}) is not followed", n, fq)
         return [st]
+
+    def is_generator_call(self, e: ast.Call):
+        try:
+            tg = self.prog.resolve(e, self.rel)
+        except Exception:
+            return False
+        return bool(tg) and all(any(isinstance(y, (ast.Yield, ast.YieldFrom)) for y in ast.walk(n)) for _, _, n in tg)
+
+    def run_loop(self, n, states, fq, items):
+        """the body once per item; `continue` ends the pass of a state, `break` takes it out of the loop"""
+        left = []
+        for x in items:
+            if isinstance(n, ast.For):
+                for s_ in states:
+                    if not s_.ret:
+                        self.bind_target(n.target, x, s_)
+            states = self.block(n.body, states, fq)
+            nxt = []
+            for s_ in states:
+                ctl = s_.env.pop("<loopctl>", None)
+                if ctl is not None:
+                    s_.ret = False
+                (left if ctl == "break" else nxt).append(s_)
+            states = self.merge(nxt)
+        out = states
+        if getattr(n, "orelse", None):
+            out = self.block(n.orelse, out, fq)
+        return self.merge(out + left)
 
     def refine(self, test, truth, st):
         """learn from `a == b` on name symbols (source_name == dest_name)"""
@@ -580,65 +1317,160 @@ class Interp:
     def bind_target(self, t, val, st):
         if isinstance(t, ast.Name):
             st.env[t.id] = val
+            if val is not OPAQUE:
+                self.set_taint(st, t.id, False)
         elif isinstance(t, (ast.Tuple, ast.List)):
-            if isinstance(val, (tuple, list)) and len(val) == len(t.elts):
+            stars = [i for i, e in enumerate(t.elts) if isinstance(e, ast.Starred)]
+            if isinstance(val, (tuple, list)) and not stars and len(val) == len(t.elts):
                 for e, v in zip(t.elts, val):
+                    self.bind_target(e, v, st)
+            elif isinstance(val, (tuple, list)) and len(stars) == 1 and len(val) >= len(t.elts) - 1:
+                # a, *rest = xs
+                i = stars[0]
+                after = len(t.elts) - i - 1
+                for e, v in zip(t.elts[:i], val[:i]):
+                    self.bind_target(e, v, st)
+                self.bind_target(t.elts[i].value, list(val[i:len(val) - after]), st)
+                for e, v in zip(t.elts[i + 1:], val[len(val) - after:]):
                     self.bind_target(e, v, st)
             else:
                 for e in t.elts:
                     self.bind_target(e, OPAQUE, st)
+        elif isinstance(t, ast.Starred):
+            self.bind_target(t.value, OPAQUE, st)
+        elif isinstance(t, ast.Attribute):
+            st.env[src(t)] = val
+        # (a subscript as loop target stores into a sequence: nothing is bound)
 
     def assign(self, t, val, value_node, st: State, fq, node):
         if isinstance(t, ast.Name):
-            self.assign_name(st, t.id, val)
+            self.assign_name(st, t.id, val, value_node)
         elif isinstance(t, (ast.Tuple, ast.List)):
-            if isinstance(val, (tuple, list)) and len(val) == len(t.elts):
+            stars = [i for i, e in enumerate(t.elts) if isinstance(e, ast.Starred)]
+            if isinstance(val, (tuple, list)) and not stars and len(val) == len(t.elts):
                 for e, v in zip(t.elts, val):
                     self.assign(e, v, None, st, fq, node)
+            elif stars and isinstance(val, (tuple, list)) and len(stars) == 1 and len(val) >= len(t.elts) - 1:
+                i = stars[0]
+                after = len(t.elts) - i - 1
+                parts = list(val[:i]) + [list(val[i:len(val) - after])] + list(val[len(val) - after:])
+                for e, v in zip(t.elts, parts):
+                    self.assign(e.value if isinstance(e, ast.Starred) else e, v, None, st, fq, node)
             else:
                 for e in t.elts:
-                    self.assign(e, OPAQUE, None, st, fq, node)
+                    e_ = e.value if isinstance(e, ast.Starred) else e
+                    self.assign(e_, OPAQUE, None, st, fq, node)
+                    # parts of a value the interpreter lost: each may be one of the arrays it was computed from
+                    if isinstance(e_, ast.Name) and value_node is not None and self.mentions_arrays(value_node, st):
+                        self.set_taint(st, e_.id, True)
+        elif isinstance(t, ast.Starred):
+            self.assign(t.value, OPAQUE, None, st, fq, node)
         elif isinstance(t, ast.Subscript):
             base = self.ev(t.value, st, fq)
             if isinstance(base, Roots):
+                # AUDIT: the store is applied to the token as `writes base, reads the arrays of val`; a value that could not be
+                # followed (neither a view/copy of known arrays nor a literal number) may carry the field: undecided, never read
+                # as `writes nothing of the field`
+                if self.unknown_value(val, value_node):
+                    self.problem(st, "store-undecided", f"the value stored by `{src(node)[:70]}` could not be followed back to the arrays "
+                                 "of the transpose", node, fq)
                 tv = self.ev(t, st, fq)
                 self.check_extent(st, tv, node, fq, "destination")
                 self.check_extent(st, val, node, fq, "source")
-                self.event(st, self.roots_of(val), set(base), node, fq)
+                self.event(st, self.roots_of(val), self.write_roots(st, base, node, fq), node, fq)
+            elif isinstance(base, MaybeView):
+                pass                                       # (before_store has made the path undecided)
+            elif isinstance(base, Fresh):
+                # a local array: it now also holds what the stored value was computed from
+                if self.unknown_value(val, value_node) and value_node is not None and self.mentions_arrays(value_node, st):
+                    self.problem(st, "store-undecided", f"the value stored by `{src(node)[:70]}` into a local array could not be "
+                                 "followed back to the arrays of the transpose", node, fq)
+                self.grow_fresh(t, base, self.roots_of(val), st)
             elif isinstance(base, list):
                 idx = self.ev(t.slice, st, fq)
                 if isinstance(idx, int) and not isinstance(idx, bool) and -len(base) <= idx < len(base):
                     base[idx] = val
+                elif isinstance(t.value, ast.Name):
+                    # AUDIT: a store at a position that is not known changes SOME item: the list is no longer the known list
+                    tainted = self.mentions_arrays(t.value, st) or (value_node is not None and self.mentions_arrays(value_node, st))
+                    st.env[t.value.id] = OPAQUE
+                    self.set_taint(st, t.value.id, tainted)
+            elif base is OPAQUE and self.mentions_arrays(t.value, st):
+                # AUDIT: a store through a value the interpreter lost is not `no store`: when that value was computed from the
+                # arrays it may be a view of one of them
+                self.problem(st, "store-undecided", f"`{src(node)[:70]}` stores through `{src(t.value)[:40]}`, which was computed from the "
+                             "arrays of the transpose but could not be followed", node, fq)
         elif isinstance(t, ast.Attribute):
             s = src(t)
             st.env[s] = val
             if s.startswith("self."):
                 st.tok = st.tok.with_(attrs=tuple(x for x in st.tok.attrs if x[0] != s) + ((s, val),))
-            if t.attr == "flat":
+            if t.attr in ("flat", "real", "imag"):
                 base = self.ev(t.value, st, fq)
                 if isinstance(base, Roots):
-                    self.event(st, self.roots_of(val), set(base), node, fq)
+                    if self.unknown_value(val, value_node):
+                        self.problem(st, "store-undecided", f"the value stored by `{src(node)[:70]}` could not be followed back to the "
+                                     "arrays of the transpose", node, fq)
+                    rd = self.roots_of(val) | (set(base) if t.attr != "flat" else set())
+                    self.event(st, rd, self.write_roots(st, base, node, fq), node, fq)
+                elif isinstance(base, Fresh):
+                    self.grow_fresh(t.value, base, self.roots_of(val), st)
+                elif base is OPAQUE and self.mentions_arrays(t.value, st):
+                    self.problem(st, "store-undecided", f"`{src(node)[:70]}` stores through a value computed from the arrays that could "
+                                 "not be followed", node, fq)
 
     # ------------------------------------------------------------ calls
     def exec_call(self, e: ast.Call, st: State, fq, want_value) -> list[tuple[State, object]]:
         f = e.func
         name = f.id if isinstance(f, ast.Name) else f.attr if isinstance(f, ast.Attribute) else ""
         # MPI collectives with buffer arguments
-        if name in ("Alltoall", "Alltoallv", "Allgather", "Allgatherv", "Gather", "Gatherv", "Scatter", "Bcast",
-                    "Reduce", "Allreduce", "Sendrecv") and len(e.args) >= 2:
+        if name in COLLECTIVES and (len(e.args) >= 2 or (e.args and any(k.arg in ("recvbuf",) for k in e.keywords))) \
+                and not any(isinstance(a, ast.Starred) for a in e.args[:2]):
+            # AUDIT (the field moves from the send to the receive buffer): true when both buffers are views of known arrays.  A
+            # buffer that was not followed makes the path undecided; a local array that receives takes over what the send buffer
+            # holds.  Bcast / Reduce-family calls with ONE buffer (in place) are not modelled: see below
             def first(x):
                 v = self.ev(x, st, fq)
                 if isinstance(v, (tuple, list)) and v:
                     return v[0]
                 return v
-            s_, r_ = first(e.args[0]), first(e.args[1])
-            self.event(st, self.roots_of(s_), self.roots_of(r_) if isinstance(r_, Roots) else set(), e, fq,
-                       what=f"{name}({src(e.args[0])[:30]} -> {src(e.args[1])[:30]})")
+            rnode = e.args[1] if len(e.args) >= 2 else next(k.value for k in e.keywords if k.arg == "recvbuf")
+            s_, r_ = first(e.args[0]), first(rnode)
+            if name in ("Bcast",):
+                # Bcast(buf, root): one buffer, overwritten on the non-root ranks: not a move of the field this engine follows
+                if isinstance(s_, (Roots, MaybeView)) or self.mentions_arrays(e.args[0], st):
+                    self.problem(st, "call-undecided", f"`{src(e)[:60]}` overwrites its buffer on all but one rank; not followed", e, fq)
+                return [(st, OPAQUE)]
+            for v, a, role in ((s_, e.args[0], "send"), (r_, rnode, "receive")):
+                if not isinstance(v, (Roots, Fresh)) and not (role == "send" and src(a) in ("MPI.IN_PLACE", "IN_PLACE")):
+                    self.problem(st, "array-argument-undecided", f"the {role} buffer `{src(a)[:50]}` of `{src(e)[:60]}` could not be followed", e, fq)
+            if isinstance(r_, MaybeView):
+                self.problem(st, "store-undecided", f"the receive buffer `{src(rnode)[:50]}` may be a copy or the array itself", e, fq)
+            elif isinstance(r_, Fresh):
+                b = rnode
+                if isinstance(b, (ast.Tuple, ast.List)) and b.elts:
+                    b = b.elts[0]
+                if not self.grow_fresh(b, r_, self.roots_of(s_), st):
+                    self.problem(st, "array-argument-undecided", f"the local receive buffer `{src(rnode)[:50]}` of `{src(e)[:60]}` could not be followed", e, fq)
+            rd = self.roots_of(s_)
+            if src(e.args[0]) in ("MPI.IN_PLACE", "IN_PLACE"):
+                rd = self.roots_of(r_)          # in place: the receive buffer is also what is sent
+            self.event(st, rd, self.write_roots(st, r_, e, fq) if isinstance(r_, Roots) else set(), e, fq,
+                       what=f"{name}({src(e.args[0])[:30]} -> {src(rnode)[:30]})")
             return [(st, OPAQUE)]
+        if name in COLLECTIVES:
+            # a collective in a call form that is not read (keyword buffers, star-expanded arguments, one in-place buffer)
+            if self.mentions_arrays(e, st):
+                self.problem(st, "array-argument-undecided", f"the buffers of `{src(e)[:60]}` could not be identified", e, fq)
+            return [(st, OPAQUE)]
+        if isinstance(f, ast.Name) and isinstance(st.env.get(f.id), Closure):
+            return self.invoke_closure(e, st.env[f.id], st, fq)
         tg = self.prog.resolve(e, self.rel)
         tg = [(r, q, n) for r, q, n in tg if r == self.rel]
         if not tg:
-            return [(st, self.ev(e, st, fq) if want_value else OPAQUE)]
+            # (evaluated also when the value is not wanted: numpy out= stores, array methods, calls that are handed an array)
+            v = self.ev(e, st, fq)
+            return [(st, v if want_value else OPAQUE)]
         outs = []
         # receiver-typed dispatch may give several candidates (LayoutHandler/LayoutSwapper); analyse each
         cands = tg
@@ -652,34 +1484,130 @@ class Interp:
                 cands = own or cands
         for r, q, node in cands[:1] if len(cands) == 1 else cands:
             s2 = st.fork() if len(cands) > 1 else st
+            if any(isinstance(y, (ast.Yield, ast.YieldFrom)) for y in ast.walk(node)):
+                # a generator: calling it runs nothing; its items are read where it is consumed (generator_items)
+                items = self.generator_items(e, s2, fq)
+                if items is None and self.mentions_arrays(e, s2):
+                    self.problem(s2, "call-undecided", f"the generator `{src(e)[:60]}` is handed arrays and could not be read", e, fq)
+                outs.append((s2, items if items is not None else OPAQUE))
+                continue
             outs.extend(self.invoke(e, q, node, s2, fq))
         return outs
 
-    def invoke(self, call: ast.Call, q: str, fn: ast.FunctionDef, st: State, fq) -> list[tuple[State, object]]:
-        params = [a.arg for a in fn.args.args]
-        is_method = params and params[0] == "self"
-        if is_method:
+    def bind_args(self, call: ast.Call, fn, st: State, fq, skip_first=None):
+        """parameter name -> abstract value for a call of `fn`.  Positional, keyword, default and keyword-only parameters;
+        `*seq` stands for the items of seq when they are known, `**d` for the items of a dict display; otherwise every
+        parameter not bound explicitly is unknown (never the default, never the sequence itself)"""
+        a_ = fn.args
+        params = [a.arg for a in a_.posonlyargs + a_.args]
+        static = any(isinstance(d, ast.Name) and d.id == "staticmethod" for d in getattr(fn, "decorator_list", []))
+        if skip_first is None:
+            skip_first = bool(params) and params[0] in ("self", "cls") and not static
+        if skip_first and isinstance(call.func, ast.Attribute) and isinstance(call.func.value, ast.Name) \
+                and call.func.value.id in self.prog.classes and call.args and not isinstance(call.args[0], ast.Starred):
+            skip_first = False          # Class.method(obj, ...): the object is passed explicitly
+        if skip_first:
             params = params[1:]
-        defaults = fn.args.defaults
-        dvals = {}
-        for p, d in zip(params[len(params) - len(defaults):], defaults):
-            dvals[p] = d
-        bound = {}
-        for i, a in enumerate(call.args):
+        dvals = dict(zip(params[len(params) - len(a_.defaults):], a_.defaults)) if a_.defaults else {}
+        for p, d in zip(a_.kwonlyargs, a_.kw_defaults):
+            if d is not None:
+                dvals[p.arg] = d
+        allp = params + [p.arg for p in a_.kwonlyargs]
+        bound, pos, star_unknown = {}, [], False
+        for a in call.args:
+            if isinstance(a, ast.Starred):
+                v = self.ev(a.value, st, fq)
+                if isinstance(v, (tuple, list)):
+                    pos += list(v)
+                else:
+                    star_unknown = True
+                    break
+            else:
+                pos.append(self.ev(a, st, fq))
+        for i, v in enumerate(pos):
             if i < len(params):
-                bound[params[i]] = self.ev(a, st, fq)
+                bound[params[i]] = v
+        if len(pos) > len(params) and a_.vararg is not None:
+            bound[a_.vararg.arg] = tuple(pos[len(params):])
+        extra_kw = {}
         for k in call.keywords:
-            if k.arg in params:
+            if k.arg is None:
+                if isinstance(k.value, ast.Dict) and all(isinstance(x, ast.Constant) and isinstance(x.value, str) for x in k.value.keys):
+                    for kk, vv in zip(k.value.keys, k.value.values):
+                        (bound if kk.value in allp else extra_kw)[kk.value] = self.ev(vv, st, fq)
+                else:
+                    star_unknown = True
+            elif k.arg in allp:
                 bound[k.arg] = self.ev(k.value, st, fq)
-        for p in params:
+            else:
+                extra_kw[k.arg] = self.ev(k.value, st, fq)
+        for p in allp:
             if p not in bound:
-                bound[p] = self.ev(dvals[p], st, fq) if p in dvals else OPAQUE
+                bound[p] = OPAQUE if star_unknown else (self.ev(dvals[p], st, fq) if p in dvals else OPAQUE)
+        if a_.vararg is not None and a_.vararg.arg not in bound:
+            bound[a_.vararg.arg] = OPAQUE if star_unknown else ()
+        if a_.kwarg is not None:
+            bound[a_.kwarg.arg] = OPAQUE
+        return bound, allp, dvals, star_unknown
+
+    def invoke_closure(self, call: ast.Call, clo: "Closure", st: State, fq):
+        """a local function / lambda called in the function that defines it: its body is read in place, with the caller's locals
+        visible (what it binds itself does not leak out, the token and the attributes of self do)"""
+        fn = clo.node
+        key = f"{fq}.<local {getattr(fn, 'name', 'lambda')}>"
+        if key in self.stack or len(self.stack) >= self.max_depth:
+            if self.closure_mentions_arrays(clo, st) or self.mentions_arrays(call, st):
+                self.problem(st, "call-undecided", f"the local function called by `{src(call)[:60]}` could not be followed (recursion)", call, fq)
+            return [(st, OPAQUE)]
+        bound, _, _, _ = self.bind_args(call, fn, st, fq, skip_first=False)
+        env2 = dict(st.env)
+        env2.update(bound)
+        for p, v in bound.items():
+            if v is not OPAQUE and p in self.tainted(st):
+                env2["<mayalias>"] = tuple(x for x in env2.get("<mayalias>", ()) if x != p)
+        cs = State(env2, st.tok)
+        self.stack.append(key)
+        try:
+            if isinstance(fn, ast.Lambda):
+                if isinstance(fn.body, ast.Call):
+                    # (a call may fork the path: followed as a statement, not as a value)
+                    outs = []
+                    for s_, v in self.exec_call(fn.body, cs, fq, want_value=True):
+                        s_.retval = v
+                        outs.append(s_)
+                else:
+                    v = self.ev(fn.body, cs, fq)
+                    outs = [cs]
+                    cs.retval = v
+            else:
+                if any(isinstance(y, (ast.Yield, ast.YieldFrom)) for y in ast.walk(fn)):
+                    if self.closure_mentions_arrays(clo, st) or self.mentions_arrays(call, st):
+                        self.problem(st, "call-undecided", f"the local generator called by `{src(call)[:60]}` is not followed", call, fq)
+                    return [(st, OPAQUE)]
+                outs = self.block(fn.body, [cs], fq)
+        finally:
+            self.stack.pop()
+        nonlocals = {nm for y in ast.walk(fn) if isinstance(y, ast.Nonlocal) for nm in y.names} if not isinstance(fn, ast.Lambda) else set()
+        res = []
+        for o in outs:
+            s3 = State(dict(st.env), o.tok)
+            for k, v in o.env.items():
+                if k.startswith("self.") or k in nonlocals or k == "<facts>":
+                    s3.env[k] = v
+            # lists of the caller that the local function changed in place are shared objects: nothing to copy
+            res.append((s3, o.retval))
+        return res
+
+    def invoke(self, call: ast.Call, q: str, fn: ast.FunctionDef, st: State, fq) -> list[tuple[State, object]]:
+        bound, params, dvals, star_unknown = self.bind_args(call, fn, st, fq)
         short = q.split(".")[-1]
         owner = q.split(".")[0]
         # layout bookkeeping at single-step functions
         lay_src = bound.get("layout_source", bound.get("source_name"))
         lay_dst = bound.get("layout_dest", bound.get("dest_name"))
-        is_step = short in ("_transpose", "_transpose_source_intact") or short == "transpose"
+        # a single-step routine is recognised by its signature (source, dest, layout_source, layout_dest), whatever its name
+        is_kernel_step = {"source", "dest", "layout_source", "layout_dest"} <= set(params)
+        is_step = is_kernel_step or short == "transpose"
 
         def unwrap(x):
             while isinstance(x, Sym) and x.kind == "layout":
@@ -688,13 +1616,21 @@ class Interp:
         if is_step and lay_src is not None:
             cur = unwrap(st.tok.layout)
             got = unwrap(lay_src)
+            # AUDIT `layout-bookkeeping` (-> D4 violated): true when both the layout the data is in and the layout handed to the
+            # step are identified symbols (a layout name of the entry point / a step of the route; distinct symbols are distinct
+            # layouts: the route lists intermediate layouts, none of which is the source) and they differ; anything else undecided
             if isinstance(got, Sym) and isinstance(cur, Sym) and got != cur:
-                self.problem(st, "layout-bookkeeping",
-                             f"step called with source layout `{got}` but the data is in layout `{cur}`", call, fq)
+                if got.kind in ("name", "step") and cur.kind in ("name", "step"):
+                    self.problem(st, "layout-bookkeeping",
+                                 f"step called with source layout `{got}` but the data is in layout `{cur}`", call, fq)
+                else:
+                    self.problem(st, "layout-bookkeeping-undecided",
+                                 f"step called with source layout `{got}`; the data is in layout `{cur}`: not comparable", call, fq)
             elif not isinstance(got, Sym):
                 self.problem(st, "layout-bookkeeping-undecided",
                              f"cannot identify the source layout argument `{src(call)[:60]}`", call, fq)
         use_contract = (q in self.stack) or (short in self.contract_funcs and self.stack) or len(self.stack) >= self.max_depth
+        recv_is_self = isinstance(call.func, ast.Attribute) and isinstance(call.func.value, ast.Name) and call.func.value.id in ("self", "cls")
         recv_is_other_mgr = isinstance(call.func, ast.Attribute) and not (isinstance(call.func.value, ast.Name) and call.func.value.id == "self") \
             and short == "transpose"
         if recv_is_other_mgr:
@@ -704,15 +1640,14 @@ class Interp:
             if short != "transpose":
                 raise AnalysisError(f"recursion through {q} has no contract")
             s_, d_, b_ = bound.get("source"), bound.get("dest"), bound.get("buf")
-            if not isinstance(s_, Roots) or not isinstance(d_, Roots):
+            # AUDIT (contract of the public transpose: field source -> dest; writes dest and (buf if given else source)): the three
+            # arguments must be identified - `buf` too: an unknown `buf` is neither `absent` nor `given`
+            if not isinstance(s_, Roots) or not isinstance(d_, Roots) or not (isinstance(b_, Roots) or b_ is None):
                 self.problem(st, "contract-args-undecided", f"cannot identify buffers in `{src(call)[:60]}`", call, fq)
                 return [(st, OPAQUE)]
-            # contract of the public transpose: field source -> dest; writes dest and (source | buf)
-            self.event(st, set(s_), set(d_), call, fq, what=f"contract {q}({sorted(s_)}->{sorted(d_)})")
+            self.event(st, set(s_), self.write_roots(st, d_, call, fq), call, fq, what=f"contract {q}({sorted(s_)}->{sorted(d_)})")
             if isinstance(b_, Roots):
                 st.tok = st.tok.with_(writes=st.tok.writes | frozenset(b_))
-            elif b_ is None:
-                st.tok = st.tok.with_(writes=st.tok.writes | frozenset(s_))
             else:
                 st.tok = st.tok.with_(writes=st.tok.writes | frozenset(s_))
             if is_step and lay_dst is not None:
@@ -723,28 +1658,57 @@ class Interp:
                 st.tok = st.tok.with_(attrs=tuple(x for x in st.tok.attrs if x[0] != "self._current_manager") +
                                       (("self._current_manager", Sym("mgr", unwrap(lay_dst))),))
             return [(st, None)]
-        # inline
-        env2 = {k: v for k, v in st.env.items() if k.startswith("self.") or k == "<same-name>"}
+        # inline.  The attributes of `self` the caller knows are those of the callee only when the receiver is the same object
+        same_obj = recv_is_self or isinstance(call.func, ast.Name)
+        env2 = {k: v for k, v in st.env.items() if (k.startswith("self.") and same_obj) or k in ("<same-name>", "<facts>")}
         env2.update(bound)
         env2["self"] = OPAQUE
-        if short in ("_transpose", "_transpose_source_intact"):
-            env2["<lay_dst>"] = lay_dst
-            env2["<lay_src>"] = lay_src
-        else:
-            env2["<lay_dst>"] = None
-            env2["<lay_src>"] = None
+        taint = [p for p in params if bound.get(p) is OPAQUE and self._arg_mentions_arrays(call, fn, p, st)]
+        if taint:
+            env2["<mayalias>"] = tuple(sorted(taint))
+        env2["<lay_dst>"] = lay_dst if is_kernel_step else None
+        env2["<lay_src>"] = lay_src if is_kernel_step else None
         callee_state = State(env2, st.tok)
         self.stack.append(q)
+        if is_kernel_step:
+            self.laystack.append((lay_src, lay_dst))
         try:
             outs = self.run(fn, callee_state, q)
         finally:
             self.stack.pop()
+            if is_kernel_step:
+                self.laystack.pop()
         for o in outs:
             s3 = State(dict(st.env), o.tok)
             for k, v in o.env.items():
-                if k.startswith("self."):
+                if (k.startswith("self.") and same_obj) or k == "<facts>":
                     s3.env[k] = v
             if is_step and lay_dst is not None:
                 s3.tok = s3.tok.with_(layout=unwrap(lay_dst))
             results.append((s3, o.retval))
         return results
+
+    def _arg_mentions_arrays(self, call, fn, p, st):
+        """was the (unknown) value bound to parameter p computed from the arrays?"""
+        params = [a.arg for a in fn.args.posonlyargs + fn.args.args]
+        if params and params[0] in ("self", "cls"):
+            params = params[1:]
+        for k in call.keywords:
+            if k.arg == p or k.arg is None:
+                if self.mentions_arrays(k.value, st):
+                    return True
+        if any(isinstance(a, ast.Starred) for a in call.args):
+            return any(self.mentions_arrays(a, st) for a in call.args)
+        if p in params and params.index(p) < len(call.args):
+            return self.mentions_arrays(call.args[params.index(p)], st)
+        return False
+
+
+def _names_of_target(t):
+    if isinstance(t, ast.Name):
+        return [t.id]
+    if isinstance(t, (ast.Tuple, ast.List)):
+        return [nm for e in t.elts for nm in _names_of_target(e)]
+    if isinstance(t, ast.Starred):
+        return _names_of_target(t.value)
+    return []
